@@ -74,7 +74,7 @@ func ruleC06SyncReaches(r *Run, p *Program, rule string) {
 		}
 		bad := false
 		for nd := range w.Reached {
-			if isRootSuccessReturn(nd) && !isRootFailureForward(w, nd) {
+			if w.rootSuccess(nd) {
 				// for Put/Delete the early argument-validation returns are failure returns; any other success return counts
 				bad = true
 				mode := ""
@@ -122,7 +122,7 @@ func mustCallOnSuccess(fn *ssa.Function, pred func(ssa.Instruction) bool) bool {
 	w := &Walk{Fn: fn, Stop: pred}
 	w.From()
 	for _, ret := range returnsOf(fn) {
-		if w.Visited[ret] && !isFailureReturn(fn, ret) {
+		if w.succ(fn, ret) {
 			return false
 		}
 	}
@@ -228,7 +228,7 @@ func ruleC06Unlink(r *Run, p *Program, rule string) {
 		return
 	}
 	w := &IPWalk{P: p,
-		Visit: func(n Node) bool { return isCurSegSync(n) },
+		Visit:    func(n Node) bool { return isCurSegSync(n) },
 		SkipEdge: func(ctx *Ctx, b *ssa.BasicBlock, k int) bool { return curSegFullTrueEdge(ctx, edgeCond(b, k)) },
 	}
 	_ = root
@@ -289,7 +289,7 @@ func ruleC09SyncBeforeClose(r *Run, p *Program, rule string) {
 			w2.Run(root, []Node{c.n})
 			succ := false
 			for n := range w2.Reached {
-				if isRootSuccessReturn(n) && !isRootFailureForward(w2, n) {
+				if w2.rootSuccess(n) {
 					succ = true
 				}
 			}
@@ -385,7 +385,7 @@ func ruleCloseOrder(r *Run, p *Program, rule string) {
 		wm.Run(root, nil)
 		okm := true
 		for n := range wm.Reached {
-			if isRootSuccessReturn(n) && !isRootFailureForward(wm, n) {
+			if wm.rootSuccess(n) {
 				okm = false
 				r.bad(rule, "(*pogreb.DB).Close:writes("+fam+")", p.Pos(instrPos(n.In)), "DB.Close can return nil without having rewritten "+fam+": the next Open reads stale metadata (e.g. a hash seed the index was not built with) and silently misses keys", wm.PathTo(n)...)
 			}
@@ -402,7 +402,7 @@ func ruleCloseOrder(r *Run, p *Program, rule string) {
 	w2.Run(root, nil)
 	okU := true
 	for n := range w2.Reached {
-		if isRootSuccessReturn(n) && !isRootFailureForward(w2, n) {
+		if w2.rootSuccess(n) {
 			okU = false
 			r.bad(rule, "(*pogreb.DB).Close:unlock", p.Pos(instrPos(n.In)), "DB.Close can return nil without releasing the lock file", w2.PathTo(n)...)
 		}
